@@ -18,6 +18,7 @@ import (
 	"github.com/named-data/ndnd/std/engine/basic"
 	spec "github.com/named-data/ndnd/std/ndn/spec_2022"
 	"github.com/named-data/ndnd/std/object"
+	ndn_sync "github.com/named-data/ndnd/std/sync"
 	"verif/harness/common"
 )
 
@@ -430,6 +431,7 @@ func gen(g *common.Gen) {
 				q := common.NameText(uriTwin(r, g, variant(r, g, c)))
 				g.Op("tab trie %s %s", q, strings.Join(txt, " "))
 				g.Op("tab mem %s %s", q, strings.Join(txt, " "))
+				g.Op("tab svs %s %s", q, strings.Join(txt, " "))
 				// the same tables under insertions, removals and lookups; the pool adds names sharing components
 				// across levels (P/x next to P/y/x: pruning one branch must not unfile a sibling)
 				pool := append([]enc.Name{}, names...)
@@ -744,6 +746,18 @@ func exec(op string) string {
 					cls[i] = strconv.Itoa(int(w[0]))
 				} else {
 					st.Put(n, 0, []byte{byte(i)})
+					cls[i] = strconv.Itoa(i)
+				}
+			}
+			return "c=" + strings.Join(cls, ",")
+		case "svs":
+			// the state-vector table of SvSync (node name -> sequence number); never started, no engine
+			sv := ndn_sync.NewSvSync(nil, enc.Name{enc.NewStringComponent(enc.TypeGenericNameComponent, "g")}, nil)
+			for i, n := range names {
+				if q := sv.GetSeqNo(n); q != 0 {
+					cls[i] = strconv.FormatUint(q-1, 10)
+				} else {
+					sv.SetSeqNo(n, uint64(i+1))
 					cls[i] = strconv.Itoa(i)
 				}
 			}
